@@ -505,6 +505,110 @@ func exploreWorkload(t *core.T, w workload, bound int) {
 }
 
 // insertion orders: every permutation of <=4 policies / entities gives identical results.
+// keptEncoders: every encoder, on an object A and on a different object B of the same kind.
+// "Encoding the same object always gives the same bytes" includes the bytes a caller still
+// holds: what one call returned must not change when another call (same encoder or another,
+// same object or another) runs afterwards.
+type keptEncoder struct {
+	name string
+	a, b func() ([]byte, error)
+}
+
+func keptEncoders() []keptEncoder {
+	plA, errA := cedar.NewPolicyListFromBytes("a.cedar", []byte(policyDoc))
+	plB, errB := cedar.NewPolicyListFromBytes("b.cedar", []byte(collidingPolicyDoc))
+	if errA != nil || errB != nil || len(plA) < 2 || len(plB) < 1 {
+		panic(fmt.Sprint("kept-encodings: harness documents do not parse: ", errA, errB))
+	}
+	psA, psB := cedar.NewPolicySet(), cedar.NewPolicySet()
+	for i, p := range plA {
+		psA.Add(cedar.PolicyID(fmt.Sprintf("a%d", i)), p)
+	}
+	for i, p := range plB {
+		psB.Add(cedar.PolicyID(fmt.Sprintf("b%d", i)), p)
+	}
+	var emB types.EntityMap
+	if err := json.Unmarshal([]byte(collidingEntitiesJSON), &emB); err != nil {
+		panic(err)
+	}
+	var scA, scB schema.Schema
+	if err := scA.UnmarshalCedar([]byte(schemaText)); err != nil {
+		panic(err)
+	}
+	if err := scB.UnmarshalCedar([]byte(collidingSchemaText)); err != nil {
+		panic(err)
+	}
+	vA, vB := types.Value(req.Context), types.Value(types.NewSet(types.String("x"), types.NewRecord(types.RecordMap{"k": types.NewEntityUID("U", "b")})))
+	ok := func(f func() []byte) func() ([]byte, error) { return func() ([]byte, error) { return f(), nil } }
+	var eA, eB types.Entity
+	for _, k := range sortedUIDs(ents) {
+		eA = ents[k]
+		break
+	}
+	for _, k := range sortedUIDs(emB) {
+		eB = emB[k]
+		break
+	}
+	return []keptEncoder{
+		{"Policy.MarshalCedar", ok(plA[0].MarshalCedar), ok(plB[0].MarshalCedar)},
+		{"Policy.MarshalJSON", plA[0].MarshalJSON, plB[0].MarshalJSON},
+		{"Policy.MarshalCedar(second policy)", ok(plA[1].MarshalCedar), ok(plA[0].MarshalCedar)},
+		{"PolicyList.MarshalCedar", ok(plA.MarshalCedar), ok(plB.MarshalCedar)},
+		{"PolicySet.MarshalCedar", ok(psA.MarshalCedar), ok(psB.MarshalCedar)},
+		{"PolicySet.MarshalJSON", psA.MarshalJSON, psB.MarshalJSON},
+		{"Value.MarshalCedar", ok(vA.MarshalCedar), ok(vB.MarshalCedar)},
+		{"Value.MarshalJSON", func() ([]byte, error) { return json.Marshal(vA) }, func() ([]byte, error) { return json.Marshal(vB) }},
+		{"Entity.MarshalJSON", eA.MarshalJSON, eB.MarshalJSON},
+		{"EntityMap.MarshalJSON", func() ([]byte, error) { return json.Marshal(ents) }, func() ([]byte, error) { return json.Marshal(emB) }},
+		{"Schema.MarshalCedar", scA.MarshalCedar, scB.MarshalCedar},
+		{"Schema.MarshalJSON", scA.MarshalJSON, scB.MarshalJSON},
+	}
+}
+
+func sortedUIDs(m types.EntityMap) []types.EntityUID {
+	var ks []types.EntityUID
+	for k := range m {
+		ks = append(ks, k)
+	}
+	sort.Slice(ks, func(i, j int) bool { return ks[i].String() < ks[j].String() })
+	return ks
+}
+
+func keptEncodingsFamily() *core.Family {
+	encs := keptEncoders()
+	n := len(encs)
+	return &core.Family{
+		Name:   "kept-encodings",
+		Desc:   fmt.Sprintf("every ordered pair of %d encoders: the bytes the first returned for object A are kept (not copied) while the second encodes a different object B and then A; the kept bytes are unchanged and a re-encoding of A equals them", n),
+		N:      int64(n * n),
+		Serial: true,
+		Run: func(t *core.T, i int64) {
+			first, second := encs[int(i)/n], encs[int(i)%n]
+			in := first.name + " of A, then " + second.name + " of B and of A"
+			kept, err := first.a()
+			if err != nil {
+				t.Fail("kept-encodings:harness-object-does-not-encode", in, "encodes", err.Error())
+				return
+			}
+			want := string(kept)
+			_, _ = second.b()
+			_, _ = second.a()
+			_, _ = second.b()
+			if string(kept) != want {
+				t.Fail("returned-bytes-change-after-a-later-call:"+first.name, in, want, string(kept))
+			}
+			again, _ := first.a()
+			if string(again) != want {
+				t.Fail("re-encoding-differs:"+first.name, in, want, string(again))
+			}
+			t.AddStates(1)
+			t.AddTrans(5)
+			t.Nontrivial()
+			t.Sample(in)
+		},
+	}
+}
+
 func insertionOrders(t *core.T, i int64) {
 	texts := []string{
 		`@a("1") permit(principal, action, resource) when { context.a == 1 };`,
@@ -570,6 +674,7 @@ func Check() *core.Check {
 					Serial: true,
 					Run:    insertionOrders,
 				},
+				keptEncodingsFamily(),
 			}
 			if tier == "thorough" {
 				// every workload completely at one deviation first; two deviations afterwards, each
